@@ -504,11 +504,12 @@ func first(a, _ []byte) []byte { return a }
 //@     invariant depth <= idx && forall(i, depth, idx, key[i] == other[i]) && implies(depth <= maxCmp, idx <= maxCmp) && implies(depth > maxCmp, idx == depth)
 //@     decreases maxCmp - idx
 
-//@ spec NodeOK(o) = implies(atype(o) == typeid(node4), Inv4(as(node4, o)) && as(node4, o).childrenLen >= 2) && implies(atype(o) == typeid(node16), Inv16(as(node16, o)) && as(node16, o).childrenLen >= 2) && implies(atype(o) == typeid(node48), Inv48(as(node48, o)) && as(node48, o).childrenLen >= 2) && implies(atype(o) == typeid(node256), Inv256(as(node256, o)) && cntP(as(node256, o).children, 256) >= 2)
+//@ spec fanOK(k) = k >= 2 || k == 0
+//@ spec NodeOK(o) = implies(atype(o) == typeid(node4), Inv4(as(node4, o)) && fanOK(as(node4, o).childrenLen)) && implies(atype(o) == typeid(node16), Inv16(as(node16, o)) && fanOK(as(node16, o).childrenLen)) && implies(atype(o) == typeid(node48), Inv48(as(node48, o)) && fanOK(as(node48, o).childrenLen)) && implies(atype(o) == typeid(node256), Inv256(as(node256, o)) && fanOK(cntP(as(node256, o).children, 256)))
 //@ spec rootOK(r) = r.pointer == nil || okRef(r)
 
 //@ spec LeafOK_alpha(o) = as(alphaLeafNode, o).key.obj != nil && allocated(as(alphaLeafNode, o).key.obj) && 0 <= as(alphaLeafNode, o).key.idx && as(alphaLeafNode, o).key.idx + as(alphaLeafNode, o).len <= blen(as(alphaLeafNode, o).key.obj)
-//@ spec HeapOK_alpha() = forallref(o, implies(inT(o) && allocated(o) && o != nil && !pooled(o), NodeOK(o) && implies(atype(o) == leafT(), LeafOK_alpha(o))))
+//@ spec HeapOK_alpha() = forallref(o, implies(inT(o) && allocated(o) && o != nil, NodeOK(o) && implies(atype(o) == leafT(), LeafOK_alpha(o))))
 //@ spec WF1_alpha(t) = t != nil && allocated(t) && atype(t) == typeid(alphaSortedTree) && leafT() == typeid(alphaLeafNode) && rootOK(t.root) && HeapOK_alpha()
 //@ spec sizeSane(t) = 0 <= t.size && t.size < 4611686018427387904
 
